@@ -1340,7 +1340,7 @@ class Sim:
         self.checkpoint(None, "shim")
 
     def checkpoint(self, code, what):
-        if int(signal.SIGINT) in self.handlers:
+        if int(signal.SIGINT) in self.handlers and int(signal.SIGTERM) in self.handlers:
             self.cp += 1
             sp = self.sig_plan
             if sp is not None and self.cp == sp[0]:
@@ -1357,12 +1357,22 @@ class Sim:
                         where = "%s:%s:after-%s" % (os.path.basename(f.f_code.co_filename),
                                                     f.f_code.co_name, sys._getframe(2).f_code.co_name)
                 self.sig_where = where
-                live = sorted(p.name for p in self.procs.values() if p.state != "reaped" and not p.stray)
-                self.emit("sigsent", sp[1], self.cp, where, live)
+                live = sorted(p.name for p in self.procs.values() if p.state == "running" and not p.stray)
+                self.emit("sigsent", sp[1], self.cp, where, live, self._in_destructor())
                 self.count("fault.SIG" + sp[1])
                 self.pending.add(int(getattr(signal, "SIG" + sp[1])))
         if self.pending:
             self.dispatch()
+
+    @staticmethod
+    def _in_destructor():
+        """is the main thread currently inside a __del__ (where CPython discards exceptions)?"""
+        f = sys._getframe(1)
+        while f is not None:
+            if f.f_code.co_name == "__del__":
+                return True
+            f = f.f_back
+        return False
 
     def dispatch(self):
         while self.pending:
@@ -1382,16 +1392,17 @@ class Sim:
             # blocking inside a handler that runs inside a monitoring callback: environment is
             # frozen there, so only worker/child progress can unblock; run it directly
             pass
+        self.emit("blk", why)
         while True:
-            if int(signal.SIGINT) in self.handlers:
+            if int(signal.SIGINT) in self.handlers and int(signal.SIGTERM) in self.handlers:
                 self.cp += 1
                 sp = self.sig_plan
                 if sp is not None and self.cp == sp[0]:
                     self.sig_plan = None
                     self.sig_where = "block:" + why
                     live = sorted(p.name for p in self.procs.values()
-                                  if p.state != "reaped" and not p.stray)
-                    self.emit("sigsent", sp[1], self.cp, self.sig_where, live)
+                                  if p.state == "running" and not p.stray)
+                    self.emit("sigsent", sp[1], self.cp, self.sig_where, live, self._in_destructor())
                     self.count("fault.SIG" + sp[1])
                     self.pending.add(int(getattr(signal, "SIG" + sp[1])))
             if self.pending and not self.in_cb:
@@ -1460,6 +1471,12 @@ class Sim:
                              line_buffering=True)
         csig.SigchldHelper._Instance = None
         subprocess._active.clear()
+        # module-level state of a fresh process
+        import conductor.errors.signal as cerrsig
+
+        for name, val in (("_defer_depth", 0), ("_abort_pending", False)):
+            if hasattr(cerrsig, name):
+                setattr(cerrsig, name, val)
         gc_was = gc.isenabled()
         gc.disable()
         inv.t0 = self.clock
